@@ -270,6 +270,52 @@ def _pairs_work(job):
     return n, cases, fails
 
 
+def judge_mutation_history(s_a, a, s_b, s_c):
+    """components are functions of the VALUES of (state, action, next state): evaluate on (A, a, B), then change object B
+    in place into the value C and evaluate on (B-object, a, A): must equal the reference on (C, a, A)"""
+    A, B = mkstate(s_a), mkstate(s_b)
+    act = dyn.ACT[a]
+    n = 0
+    for i, (name, kw) in enumerate(REWARDS):
+        if not RR.precondition(name, kw, s_a, s_b) or not RR.precondition(name, kw, s_c, s_a):
+            continue
+        fn = real_reward(i, 'factory')
+        n += 1
+        try:
+            fn(A, act, B, rng=TW)
+            # in-place change of the object that has just been `next_state`
+            B.agent.position = type(B.agent.position)(s_c[1], s_c[2])
+            B.agent.orientation = mkstate(s_c).agent.orientation
+            got = fn(B, act, A, rng=TW)
+        except Exception as e:  # noqa: BLE001
+            return n, f'reward {name}{kw} raised {type(e).__name__} in a mutate-in-place history: {e}', {'component': 'reward:' + name}
+        want = RR.REWARD_REF[name](s_c, a, s_a, **kw)
+        if not close(got, want):
+            return n, (f'reward {name}{kw} on {a} = {got}, reference {want}, when `state` is an object that was `next_state` of the '
+                       f'previous evaluation and was modified in place since (the component must depend on values only)'), {'component': 'reward:' + name}
+        B = mkstate(s_b)
+    return n, None, {}
+
+
+def memory_universe():
+    """states with a beacon and TWO exits, colours over {C1, C2}^2 (so that several exits may match the beacon)"""
+    out = []
+    cells = [(0, 0), (0, 1), (0, 2), (1, 0), (1, 1), (1, 2)]
+    for b, e1, e2 in itertools.permutations(cells, 3):
+        if e1 > e2:
+            continue
+        for c1 in (U.C1, U.C2):
+            for c2 in (U.C1, U.C2):
+                rows = [[U.FLOOR] * 3 for _ in range(2)]
+                rows[b[0]][b[1]] = U.beacon(U.C1)
+                rows[e1[0]][e1[1]] = U.exit_(c1)
+                rows[e2[0]][e2[1]] = U.exit_(c2)
+                rows = tuple(tuple(r) for r in rows)
+                for pos in (e1, e2, b):
+                    out.append((rows, pos[0], pos[1], 'F', NONE))
+    return out
+
+
 # ---------------------------------------------------------------- (c) shipped configurations
 def make_hooks(env, name):
     data = configs.load(dict(configs.all_configs())[name])
@@ -303,12 +349,18 @@ def make_hooks(env, name):
 
 
 def replay(case):
+    if case['kind'] == 'job':
+        return dyn.replay_job(case, _worker)
     if case['kind'] == 'step':
         return judge(tuple(case['names']), tup(case['s']), case['a'])[2]
     if case['kind'] == 'triple':
         return judge_triple(tup(case['s']), case['a'], tup(case['s2']), composites=False)[1]
     if case['kind'] == 'reach':
         return reach.replay_trace(case, make_hooks)
+    if case['kind'] == 'mutation_history':
+        return judge_mutation_history(tup(case['s']), case['a'], tup(case['s2']), tup(case['s3']))[1]
+    if case['kind'] == 'memory':
+        return judge_triple(tup(case['s']), case['a'], tup(case['s2']), composites=False, only={('r', 22), ('r', 23), ('t', 2)})[1]
     raise ValueError(case['kind'])
 
 
@@ -331,6 +383,31 @@ def run(rep, tier, seed):
         pf.extend(fails)
     dyn.report_fails(rep, pf, replay)
     rep.part('arbitrary_pairs', states=len(states), triples=pc, evaluations=pn)
+    # in-place mutation histories and the memory reward with several exits of the beacon colour
+    mh = mem = 0
+    extra = []
+    for obj in (U.exit_(0), U.key(U.C1), U.beacon(U.C1), U.door(1, U.C1)):
+        rows = ((U.FLOOR, U.FLOOR, obj), (U.FLOOR, U.FLOOR, U.FLOOR))
+        hist_states = [(rows, y, x, 'F', NONE) for y in range(2) for x in range(3) if (y, x) != (0, 2)]
+        for s_a in hist_states:
+            for s_b in hist_states:
+                for s_c in hist_states:
+                    if s_c == s_b:
+                        continue
+                    k, m, sig = judge_mutation_history(s_a, 'MOVE_FORWARD', s_b, s_c)
+                    mh += k
+                    if m and len(extra) < 2:
+                        extra.append({'kind': 'mutation_history', 's': s_a, 'a': 'MOVE_FORWARD', 's2': s_b, 's3': s_c, 'message': m,
+                                      'sig': dict(sig, part='mutation_history')})
+    for s2 in memory_universe():
+        for s1 in (s2, (s2[0], 0, 0, 'F', NONE)):
+            k, m, sig = judge_triple(s1, 'MOVE_FORWARD', s2, composites=False, only={('r', 22), ('r', 23), ('t', 2)})
+            mem += k
+            if m and len([e for e in extra if e['kind'] == 'memory']) < 2:
+                extra.append({'kind': 'memory', 's': s1, 'a': 'MOVE_FORWARD', 's2': s2, 'message': m, 'sig': dict(sig, part='memory_two_exits')})
+    dyn.report_fails(rep, extra, replay)
+    rep.part('mutation_histories', evaluations=mh)
+    rep.part('memory_reward_two_exits', evaluations=mem)
     rep.sample({'kind': 'triple', 's': states[3], 'a': 'ACTUATE', 's2': states[-5]})
     if tier == 'quick':
         names, init_limit, max_states, gcap = configs.SMALL + ['crossing.7x7', 'four_rooms.7x7', 'memory_four_rooms.7x7',
